@@ -6,15 +6,41 @@ CODES = {1: "an ideal server applying the sent Subscribe/StopSubscribe entries d
          3: "a requested subscription was not renewed within the refresh interval", 98: "a transmitted datagram did not decode"}
 
 
+def directed_mid_round(r):
+    """Eventgroups requested from THREE servers; at the start instant or a refresh instant the application stops one of
+    them one, two or three loop iterations into the instant (ApiSoon) - while the round that renews the subscriptions
+    is under way if the round takes more than one iteration."""
+    from .. import conv
+    T = scen.T
+    cfg = list(scen.timings(r))
+    cfg[11] = r.choice([0, 0, 5 * scen.MS])
+    refresh = r.choice([None, T, T])
+    cfg[10] = refresh
+    cfg[9] = 0xFFFFFF if refresh is None else r.choice([3, 0xFFFFFF])
+    gs = r.sample(scen.EGS, 3) if len(scen.EGS) >= 3 else [scen.EGS[0]] * 3
+    events = [(0, (1, [9, conv.s_eg(g), srv])) for g, srv in zip(gs, (1, 2, 3))]
+    t_start = r.choice([0, 1, T // 4])
+    events.append((t_start, (1, [11])))
+    when = t_start if refresh is None or r.random() < 0.4 else t_start + refresh * r.choice([1, 2])
+    victim = r.choice([0, 1, 2, 2, 2])
+    hops = r.choice([22, 23, 23, 24])
+    events.append((when, (1, [hops, [10, conv.s_eg(gs[victim]), victim + 1, True]])))
+    end = when + 4 * T
+    if r.random() < 0.5:
+        events.append((when + 2 * T + r.choice([0, 1]), (1, [12, True])))
+    return dict(cfg=tuple(cfg), insts=[], draws=[], events=sorted(events, key=lambda e: e[0]), end=end, rev=r.random() < 0.3, fuel=20000)
+
+
 def run(ctx):
     r = ctx.rng
     quick = ctx.tier == "quick"
     ctx.rule = ("sequences of subscribe / stop-subscribe (no duplicate subscribes) / start / stop of the subscriber for 3 eventgroups (IPv4/IPv6 local endpoints, "
                 "UDP/TCP) x 2 servers at times on refresh instants, +-1 tick and anywhere, refresh intervals {None,1,2,3 s}; complete traces compared with the "
-                "model; implementation trace judged by check_C14; non-trivial = distinct scenario producing at least one transmission")
+                "model; implementation trace judged by check_C14; every fifth scenario: eventgroups at THREE servers and an application stop-subscribe made one, two "
+                "or three loop iterations into the start / refresh instant (ApiSoon); non-trivial = distinct scenario producing at least one transmission")
     ctx.assumptions = ["no duplicate subscribe of the same eventgroup to the same server (the property's proviso)"]
     n = 300 if quick else 10000
-    scs = stackprop.corpus_scenarios("C14") + [scen.subscriber_scenario(r) for _ in range(n)]
+    scs = stackprop.corpus_scenarios("C14") + [directed_mid_round(r) if k % 5 == 3 else scen.subscriber_scenario(r) for k in range(n)]
     stackprop.run_scenarios(ctx, scs, 3014, CODES, what="subscriber")
 
 
